@@ -406,6 +406,56 @@ async def _(mpc):
     return [list((await mpc.output(p)).shape) for p in parts]
 
 
+@open_case('C27', 'C27-hc-cl-constructor-check', "HCDivisorCL(value) with the default check=True", expected=True)
+async def _(mpc):
+    from mpyc import fingroups as fg
+    H = fg.HyperellipticCurve('kummer1271')
+    return H(H.generator.value) == H.generator
+
+
+@open_case('C27', 'C27-generator-order', 'declared order = order of the generator (QuadraticResidues(p=31), ClassGroup(Delta=-431))',
+           expected=[15, 21])
+async def _(mpc):
+    from mpyc import fingroups as fg
+
+    def order_of(g, bound):
+        x, n = g, 1
+        while x != type(g).identity and n < bound:
+            x, n = x @ g, n + 1
+        return n
+    Q, C = fg.QuadraticResidues(p=31), fg.ClassGroup(Delta=-431)
+    return [order_of(Q.generator, 100) if Q.order == 15 else -1, order_of(C.generator, 100) if C.order == 21 else -1]
+
+
+@open_case('C27', 'C27-schnorr-decode-range', 'SchnorrGroup.decode(*encode(m)) for m >= 1024', expected=5000)
+async def _(mpc):
+    from mpyc import fingroups as fg
+    G = fg.SchnorrGroup(l=64, n=32)
+    return int(G.decode(*G.encode(5000)))
+
+
+@open_case('C28', 'C28-kummer-identity-operand', "SecGrp(kummer1271): identity operand of @, secret base with an even secret exponent",
+           expected=[True, True])
+async def _(mpc):
+    from mpyc import fingroups as fg
+    group = fg.HyperellipticCurve('kummer1271')
+    secgrp = mpc.SecGrp(group)
+    g = group.generator
+    a = await mpc.output(secgrp.identity @ secgrp(g))
+    b = await mpc.output(secgrp(g) ^ mpc.SecInt(8)(2))
+    return [a == g, b == (g ^ 2)]
+
+
+@open_case('C28', 'C28-repeat-public-field-exponent', 'secgrp.repeat(secret a, public GF(q) exponent)', expected=True)
+async def _(mpc):
+    from mpyc import fingroups as fg, finfields
+    group = fg.QuadraticResidues(l=8)
+    secgrp = mpc.SecGrp(group)
+    g = group.generator
+    r = await mpc.output(secgrp.repeat(secgrp(g), finfields.GF(group.order)(7)))
+    return r == (g ^ 7)
+
+
 # ---------------------------------------------------------------------------------------------------- driver
 def _close(a, b, tol):
     if isinstance(a, (list, tuple)) and isinstance(b, (list, tuple)):
